@@ -40,7 +40,18 @@ def small_program(rng, with_test=False):
 
 
 def lib_program(rng, k):
-    return "lib%d_a: nop\n.const lib%d_c = %d\nlib%d_b: {\n    lda #<lib%d_a\n}\n%s" % (k, k, rng.randrange(1, 200), k, k, "lda #\n" if rng.random() < 0.2 else "")
+    # (sometimes the definitions stand far down in the file, further than the importing file is long)
+    pad = "// library %d\n" % k * rng.choice([0, 0, 0, 12, 40])
+    return pad + "lib%d_a: nop\n.const lib%d_c = %d\nlib%d_b: {\n    lda #<lib%d_a\n}\n%s" % (k, k, rng.randrange(1, 200), k, k, "lda #\n" if rng.random() < 0.2 else "")
+
+
+def lib_uses(rng, ks):
+    """Statements of the importing file that use what the libraries define."""
+    out = []
+    for k in ks:
+        for t in rng.sample(["lda lib%d_a", "jsr lib%d_b", "ldx #lib%d_c", ".word lib%d_a, lib%d_b"], rng.randrange(0, 3)):
+            out.append(t.replace("%d", str(k)))
+    return "".join(x + "\n" for x in out)
 
 
 def params_for(method, uri, line, ch):
@@ -270,7 +281,8 @@ def run_history(acc, rng, hist_seed):
     nlib = rng.choice([0, 1, 1, 2])
     # (file names that need escaping in a URI: a blank, a non-ASCII letter, a '#')
     libname = {k: rng.choice(["lib%d.asm", "lib%d.asm", "lib %d.asm", "lib\u00e4%d.asm", "lib#%d.asm"]) % k for k in range(3)}
-    disk = {"main.asm": "\n".join('.import * from "%s"' % libname[k] for k in range(nlib)) + ("\n" if nlib else "") + small_program(rng)}
+    disk = {"main.asm": "\n".join('.import * from "%s"' % libname[k] for k in range(nlib)) + ("\n" if nlib else "") +
+            (small_program(rng) if rng.random() < 0.8 else "nop\n") + lib_uses(rng, range(nlib))}
     for k in range(nlib):
         disk[libname[k]] = lib_program(rng, k)
     disk["orphan.asm"] = "orphan: nop\n"       # a file of the directory that is not part of the project
@@ -345,7 +357,7 @@ def run_history(acc, rng, hist_seed):
                 keep = [k for k in range(nlib) if rng.random() < 0.6]
                 if len(keep) < nlib:
                     flags.add("import-removed")
-                text = "\n".join('.import * from "%s"' % libname[k] for k in keep) + ("\n" if keep else "") + text
+                text = "\n".join('.import * from "%s"' % libname[k] for k in keep) + ("\n" if keep else "") + text + lib_uses(rng, keep)
                 if rng.random() < 0.25:
                     # an import path as it looks while it is being typed: empty, a directory, a directory with a slash
                     flags.add("import-of-directory")
